@@ -230,6 +230,21 @@ theorem c05_del_get (h : Header) (id : UInt8) (h' : Header) (hg : noGhost h = tr
   · rw [get_view, hv]; exact Rtp.Proofs.HeaderExtSpec.get_del_same _ id hnd
   · rw [get_view, get_view, hv]; exact Rtp.Proofs.HeaderExtSpec.get_del_other _ id k hk
 
+/-- ids that are distinct stay distinct under every operation (so, with `c05_del_get`, on every
+    header that did not start from a wire image with duplicate ids a deleted id is absent) -/
+theorem c05_inv_distinct (h : Header) (op : Op) (hg : noGhost h = true)
+    (hnd : (getExtensionIDs h).Nodup) : (getExtensionIDs (modelStep h op).2).Nodup := by
+  cases he : (modelStep h op).1 with
+  | some e =>
+    have : (modelStep h op).2 = h := step_err_unchanged h op e _ (by rw [← he])
+    rw [this]; exact hnd
+  | none =>
+    rw [ids_view] at hnd ⊢
+    rw [step_view h op hg he]
+    cases op with
+    | set id v => exact Rtp.Proofs.HeaderExtSpec.nodup_set _ id v hnd
+    | del id => exact Rtp.Proofs.HeaderExtSpec.nodup_del _ id hnd
+
 /-! ### non-vacuity -/
 
 /-- a history with an insertion, an update, a refused call (id 15 in the one-byte profile), a
